@@ -159,6 +159,10 @@ def make_url(scn, top):
         return 'file://' + top
     if st == 'zip':
         return 'zip://' + top
+    if st == 'file-host':
+        return 'file://localhost' + top       # RFC 8089: an explicit local authority names the same file
+    if st == 'zip-host':
+        return 'zip://localhost' + top
     return top
 
 
@@ -478,7 +482,7 @@ def generate(rng, tier):
                 tree.append({'path': path, 'hex': _hex(gen_content(rng, path)), 'mtime': rng.choice(SEASONS) + 2 * rng.randrange(0, 600000)})
         scn['more_requests'] = others
     if kind == 'dir':
-        scn['url_style'] = rng.choice(['bare', 'file'])
+        scn['url_style'] = rng.choice(['bare', 'bare', 'file', 'file', 'file-host'])
         if rng.random() < 0.2:
             scn['recursive'] = False
         if rng.random() < 0.15:
@@ -491,7 +495,7 @@ def generate(rng, tier):
         if rng.random() < 0.2:
             scn['empty_dirs'] = ['emptydir', name]   # a directory named like the module
     else:
-        scn['url_style'] = rng.choice(['bare', 'zip'])
+        scn['url_style'] = rng.choice(['bare', 'bare', 'zip', 'zip', 'zip-host'])
         scn['zipext'] = rng.choice(['.zip', '.zip', '.ZIP'])
         if rng.random() < 0.04:
             scn['notazip'] = True
